@@ -1,4 +1,55 @@
-From Dawn Require Import Config.Model.
-Theorem write_empty : write (mkConfig [] [] [] []) = [].
-Proof. reflexivity. Qed.
-Print Assumptions write_empty.
+(** C19 — Project configuration round-trips through its file format.
+    Vocabulary (Config/Model.v): [write c] = the bytes WriteConfigFile produces; [load s] = LoadConfigBytes
+    (decode, validate requirement versions, CleanPath the requirement paths; [None] = error);
+    [utf8 s] = the byte string [s] is valid UTF-8 (a concatenation of well-formed characters): arbitrary Unicode,
+    quotes and control characters included; [valid c] = every string of [c] is valid UTF-8, every requirement
+    version is canonical semver, every requirement path is a fixed point of CleanPath, and the requirements are
+    the key-sorted association list of a map.  Go's nil and empty slices/maps are the same model value, so the
+    "normalise" of the design is the identity here.  go-toml, x/mod/semver and path.Clean are modelled. *)
+From Dawn Require Import Config.Model Config.Proofs.
+
+(** Every string value: decoding its encoding gives it back, whatever follows it in the document. *)
+Theorem string_roundtrip : forall s rest, utf8 s -> parse_string (encode_string s ++ rest) = Some (s, rest).
+Proof. exact parse_string_ok. Qed.
+Print Assumptions string_roundtrip.
+
+(** Every requirement name (bare when plain, quoted otherwise, the empty name included), followed by " = ..". *)
+Theorem key_roundtrip : forall k rest, utf8 k -> parse_key (encode_key k ++ 32 :: rest) = Some (k, 32 :: rest).
+Proof. exact parse_key_ok. Qed.
+Print Assumptions key_roundtrip.
+
+(** Writing a valid configuration and loading it back yields the same configuration. *)
+Theorem config_roundtrip : forall c, valid c -> load (write c) = Some c.
+Proof. exact load_write. Qed.
+Print Assumptions config_roundtrip.
+
+(** ... and writing the loaded configuration again produces identical bytes. *)
+Theorem write_stable : forall c, valid c -> option_map write (load (write c)) = Some (write c).
+Proof. exact Proofs.write_stable. Qed.
+Print Assumptions write_stable.
+
+(** ASCII strings with any control characters and quotes are within the quantifier. *)
+Theorem ascii_is_utf8 : forall s, Forall (fun b => b < 128) s -> utf8 s.
+Proof. exact utf8_ascii. Qed.
+Print Assumptions ascii_is_utf8.
+
+(** A valid configuration with a control character, both quote styles, a two-byte, a three-byte and a
+    four-byte character, an empty requirement name, a name needing quotes, a versioned path, a prerelease. *)
+Definition example : config :=
+  mkConfig [105; 116; 39; 115; 32; 34; 0; 10; 195; 169; 226; 130; 172; 240; 159; 152; 128]   (* i t apostrophe s space dquote NUL LF e-acute euro emoji *)
+           [49] [[42; 46; 111]; []; [92; 39]]
+           [mkReq [] [97; 47; 98; 64; 118; 50] [118; 49; 46; 50; 46; 51];                      (* empty name : a/b@v2 v1.2.3 *)
+            mkReq [97; 46; 98] [46] [118; 49; 46; 48; 46; 48; 45; 114; 99; 46; 49]].           (* a.b : . v1.0.0-rc.1 *)
+
+Example example_valid : valid example.
+Proof.
+  assert (Hname : utf8 (c_name example)).
+  { exists [[105]; [116]; [39]; [115]; [32]; [34]; [0]; [10]; [195; 169]; [226; 130; 172]; [240; 159; 152; 128]].
+    split; [repeat constructor|reflexivity]. }
+  repeat split; try exact Hname; try reflexivity;
+    repeat (apply Forall_cons || apply Forall_nil); repeat split; try reflexivity;
+    apply utf8_ascii; repeat constructor.
+Qed.
+
+Example example_roundtrip : load (write example) = Some example.
+Proof. vm_compute. reflexivity. Qed.
